@@ -244,6 +244,10 @@ def _check_writer(wname, model):
             out.append(Fail('return!=file:' + wname, {'call': i}))
         outputs.append(data)
         after = _full_snapshot(fm)
+        probs = bd.wellformed(fm)
+        if probs:
+            out.append(Fail('writer-mutates-model:' + wname, {'call': i, 'tree no longer well-formed': probs[:3]}))
+            break
         if after[0] != before[0] or after[1] != before[1]:
             out.append(Fail('writer-mutates-model:' + wname, {'call': i, 'after': cm._safe_str(after[0])}))
             break
